@@ -606,7 +606,10 @@ def phrase_bank(ctx, lang):
     return bank
 
 
-PUNCT = [", ", ". ", "; ", ": ", "! ", "? ", " (", ") ", " - ", " / ", "... ", " \"", "\" ", ".", ","]
+PUNCT = [", ", ". ", "; ", ": ", "! ", "? ", " (", ") ", " - ", " / ", "... ", " \"", "\" ", ".", ",",
+         # punctuation glued to both neighbours, Unicode dashes and dots (typeset hyphen, non-breaking hyphen, en/em dash,
+         # middle dot, hyphenation point, ellipsis), ASCII hyphen and slash without blanks
+         "\u2010", "\u2011", "\u2013", "\u2014", "\u00b7", "\u2027", "\u2026", "-", "/", " \u2013 ", "\u2010 "]
 
 
 def sentence(rng, lang, bank, k=None, seps=None, extra=()):
@@ -1001,6 +1004,9 @@ def oracle_c06(ctx, focus):
 # ------------------------------------------------------------------------------------------------
 # C07: scanner and validator agree
 
+GLUE = [" ", "-", "\u2010", "\u2011", "\u2013", "\u2014", "\u00b7", "/", "'", ",", "\u00ad", "\u200b", "_", "\u2027", "  ", "\t"]
+
+
 def oracle_c07(ctx, focus):
     import vocab
     failures, n, distinct = [], 0, set()
@@ -1023,7 +1029,13 @@ def oracle_c07(ctx, focus):
             if rng.chance(1, 4):
                 w = rng.choice(numwords)
                 ws += [w, w]          # repeated scale words etc.
-            streams_.append([w.lower() for w in ws if w])
+            ws = [w.lower() for w in ws if w]
+            if rng.chance(1, 3) and len(ws) > 1:
+                # glue tokens between words: only whitespace and the ASCII hyphen are skipped by the scanner; any other
+                # punctuation token (typeset hyphens, dashes, dots, invisible format characters) is a token of its own
+                j = 1 + rng.below(len(ws) - 1)
+                ws = ws[:j] + [rng.choice(GLUE)] + ws[j:]
+            streams_.append(ws)
         # phase 1: scan each stream (threshold 0, no annotation: plain tokens), validate the whole phrase
         reqs = []
         hinted = []
@@ -1062,7 +1074,8 @@ def oracle_c07(ctx, focus):
                 num = text[2:] if text.startswith("1/") else text
                 if mark in num.rstrip(".") and re.match(r"^[0-9]+%s[0-9]" % re.escape(mark), num):
                     continue          # decimal occurrence
-                reqs2.append("val\t%s\t%s" % (lang, esc(" ".join(ws[s:e]))))
+                # words(span): the tokens of the span that the scanner does not skip (whitespace, lone ASCII hyphen)
+                reqs2.append("val\t%s\t%s" % (lang, esc(" ".join(w_ for w_ in ws[s:e] if not _is_skipped_text(w_)))))
                 meta2.append(("span", ws, (s, e, text), reqs[2 * i]))
             if va.startswith("OK:") and not hinted[i]:
                 d = unesc(va[3:])
@@ -1070,7 +1083,7 @@ def oracle_c07(ctx, focus):
                     failures.append(fail(" ".join(ws), "scanner: %s" % sc.split("|")[0], "one occurrence with text %s" % d,
                                          [reqs[2 * i], reqs[2 * i + 1]], lang=lang, what="valid-phrase-not-one-number"))
             for j, w in enumerate(ws):
-                if j not in covered:
+                if j not in covered and not _is_skipped_text(w):
                     reqs2.append("val\t%s\t%s" % (lang, esc(w)))
                     meta2.append(("left", ws, j, reqs[2 * i]))
             distinct.add((lang, sc.split("|")[0]))
@@ -1280,9 +1293,19 @@ def oracle_c10(ctx, focus):
 # ------------------------------------------------------------------------------------------------
 # C11: letter case never matters
 
+# capital forms that are NOT what upper() produces but lowercase to an ordinary letter: capital sharp s, Kelvin sign,
+# Angstrom sign, Ohm sign (their lowercase has another UTF-8 width than the letter itself)
+ALT_CAPS = {"\u00df": "\u1e9e", "k": "\u212a", "\u00e5": "\u212b", "\u03c9": "\u2126"}
+
+
+def _alt_upper(x):
+    return "".join(ALT_CAPS.get(c, c.upper() if len(c.upper()) == 1 else c) for c in x)
+
+
 def recasings(rng, s):
     out = []
-    for f in (str.upper, str.capitalize, str.title, lambda x: "".join(c.upper() if rng.chance(1, 2) else c for c in x)):
+    for f in (str.upper, str.capitalize, str.title, lambda x: "".join(c.upper() if rng.chance(1, 2) else c for c in x), _alt_upper,
+              lambda x: "".join(ALT_CAPS.get(c, c) for c in x)):
         r = f(s)
         if r != s and r.lower() == s.lower() and len(r) == len(s):
             out.append(r)
@@ -1755,6 +1778,12 @@ def oracle_c18(ctx, focus):
                 texts.append([num, link, "o" + sep if sep in punct and rng.chance(1, 2) else "o", "" if sep in punct and False else sep, sm])
                 texts.append([sm + ("," if rng.chance(1, 2) else ""), num, link, "o"])
                 texts.append([sm, sep, num, link, "o", sep, rng.choice(smalls)])
+    # hyphenated compounds of vocabulary words, the conjunction included (`hundred-and`: ends mid-number)
+    comp = [x + "-and" for x in numw if x.isalpha()] + ["and-" + x for x in numw[:4]] + [x + "-" + y for x in numw[:5] for y in numw[5:9] if x.isalpha() and y.isalpha()]
+    for c_ in comp:
+        texts.append([c_, "o", "x"])
+        texts.append(["x", "o", c_])
+        texts.append([c_, "o,", "five"])
     for w in lit_plain:
         for num in ("five", "twelve", "twenty"):
             texts.append([num, "o", w])
